@@ -149,3 +149,159 @@ Proof.
   - rewrite (resample_between_is_linear 7 [0; 1; 3] [10; 20; 60] 1%nat 2); simpl; auto; try lra; try lia.
   - apply (resample_outside_is_nan 7 [0; 1; 3] [10; 20; 60] 4 0 [1; 3]); auto; [discriminate|]. right; simpl; lra.
 Qed.
+
+(* ------------------------------------------------------------------------------------------------------------ *)
+(* Weakly increasing time axes: every returned trajectory stores each hand-over point twice (same time), so its   *)
+(* time axis is only non-decreasing.  np.interp then returns, at a stored time, the value of the LAST point       *)
+(* carrying that time; strictly between two stored times only the local gap matters.                              *)
+(* ------------------------------------------------------------------------------------------------------------ *)
+Fixpoint weak (x0 : R) (xs : list R) : Prop :=
+  match xs with [] => True | x1 :: r => x0 <= x1 /\ weak x1 r end.
+Definition weakly_increasing (xs : list R) : Prop :=
+  match xs with [] => True | x0 :: r => weak x0 r end.
+
+Lemma strict_weak : forall xs x0, strict x0 xs -> weak x0 xs.
+Proof. induction xs; simpl; intros; auto. destruct H; split; [lra|auto]. Qed.
+
+Lemma weak_head_le_nth : forall xs x0 i, weak x0 xs -> (i < S (length xs))%nat -> x0 <= nth i (x0 :: xs) 0.
+Proof.
+  induction xs as [|x1 xs IH]; intros x0 i H Hi.
+  - destruct i; simpl in *; try lia; lra.
+  - destruct i as [|i]; [simpl; lra|]. destruct H as (H1 & H2).
+    change (nth (S i) (x0 :: x1 :: xs) 0) with (nth i (x1 :: xs) 0).
+    assert (x1 <= nth i (x1 :: xs) 0) by (apply IH; auto; simpl in Hi; lia). lra.
+Qed.
+
+Lemma weak_nth_mono : forall xs x0 i j, weak x0 xs -> (i <= j)%nat -> (j < S (length xs))%nat ->
+  nth i (x0 :: xs) 0 <= nth j (x0 :: xs) 0.
+Proof.
+  induction xs as [|x1 xs IH]; intros x0 i j H Hij Hj.
+  - assert (i = 0 /\ j = 0)%nat as (-> & ->) by (simpl in Hj; lia). lra.
+  - destruct i as [|i].
+    + apply weak_head_le_nth; auto.
+    + destruct j as [|j]; [lia|]. destruct H as (H1 & H2).
+      change (nth (S i) (x0 :: x1 :: xs) 0) with (nth i (x1 :: xs) 0).
+      change (nth (S j) (x0 :: x1 :: xs) 0) with (nth j (x1 :: xs) 0).
+      apply IH; auto; simpl in Hj; lia.
+Qed.
+
+Lemma weak_nth_le_last : forall xs x0 i, weak x0 xs -> (i < S (length xs))%nat -> nth i (x0 :: xs) 0 <= last (x0 :: xs) x0.
+Proof.
+  intros xs x0 i H Hi.
+  assert (E : last (x0 :: xs) x0 = nth (length xs) (x0 :: xs) 0).
+  { clear. revert x0. induction xs as [|x1 xs IH]; intros; [reflexivity|].
+    change (last (x0 :: x1 :: xs) x0) with (last (x1 :: xs) x0). rewrite (last_cons_indep xs x1 x0 x1).
+    rewrite IH. reflexivity. }
+  rewrite E. apply weak_nth_mono; auto; lia.
+Qed.
+
+Section InterpWeak.
+  Variable nan : R.
+  Notation interp := (@interp RNum nan).
+  Notation interp_go := (@interp_go RNum).
+
+  (* the scan stops at the last stored time not after x *)
+  Lemma interp_go_weak : forall xs ys x0 y0 x,
+    length xs = length ys -> weak x0 xs -> x0 <= x -> x <= last (x0 :: xs) x0 ->
+    exists j, (j < S (length xs))%nat /\ nth j (x0 :: xs) 0 <= x /\
+      (j = length xs \/ x < nth (S j) (x0 :: xs) 0) /\
+      interp_go x0 y0 xs ys x =
+        if Reqb (nth j (x0 :: xs) 0) x then nth j (y0 :: ys) 0
+        else (nth (S j) (y0 :: ys) 0 - nth j (y0 :: ys) 0) / (nth (S j) (x0 :: xs) 0 - nth j (x0 :: xs) 0)
+             * (x - nth j (x0 :: xs) 0) + nth j (y0 :: ys) 0.
+  Proof.
+    induction xs as [|x1 xs IH]; intros ys x0 y0 x Hl Hw H0 H1.
+    - exists 0%nat. simpl in *. assert (x = x0) by lra. subst x.
+      repeat split; auto; try lra.
+      replace (Reqb x0 x0) with true by (symmetry; apply Reqb_true; reflexivity).
+      destruct ys; reflexivity.
+    - destruct ys as [|y1 ys]; simpl in Hl; try lia. destruct Hw as (W1 & W2).
+      destruct (Rle_or_lt x1 x) as [Hx|Hx].
+      + change (last (x0 :: x1 :: xs) x0) with (last (x1 :: xs) x0) in H1.
+        rewrite (last_cons_indep xs x1 x0 x1) in H1.
+        assert (Hl' : length xs = length ys) by (simpl in Hl; injection Hl; auto).
+        destruct (IH ys x1 y1 x Hl' W2 Hx H1) as (j & Hj & A & B & C).
+        exists (S j). split; [simpl; lia|]. split; [exact A|]. split.
+        * destruct B as [B|B]; [left; simpl; lia|right; exact B].
+        * simpl interp_go. rnum.
+          replace (Rleb x1 x) with true by (symmetry; apply Rleb_true; auto). exact C.
+      + exists 0%nat. split; [simpl; lia|]. split; [simpl; lra|]. split; [right; simpl; lra|].
+        simpl. rnum. replace (Rleb x1 x) with false by (symmetry; apply Rleb_false; auto). reflexivity.
+  Qed.
+
+  (* at a stored time: the value of the last point carrying that time *)
+  Theorem resample_at_stored_time_weak : forall xs ys i,
+    length xs = length ys -> weakly_increasing xs -> (i < length xs)%nat ->
+    exists j, (i <= j)%nat /\ (j < length xs)%nat /\ nth j xs 0 = nth i xs 0 /\
+      (S j = length xs \/ nth i xs 0 < nth (S j) xs 0) /\
+      interp xs ys (nth i xs 0) = nth j ys 0.
+  Proof.
+    intros xs ys i Hl Hw Hi. destruct xs as [|x0 xs]; simpl in Hi; try lia.
+    destruct ys as [|y0 ys]; simpl in Hl; try lia. simpl in Hw.
+    set (x := nth i (x0 :: xs) 0).
+    assert (H0 : x0 <= x) by (apply weak_head_le_nth; auto; lia).
+    assert (H1 : x <= last (x0 :: xs) x0) by (apply weak_nth_le_last; auto; lia).
+    assert (Hl' : length xs = length ys) by (injection Hl; auto).
+    destruct (interp_go_weak xs ys x0 y0 x Hl' Hw H0 H1) as (j & Hj & A & B & C).
+    assert (Hij : (i <= j)%nat).
+    { destruct (le_lt_dec i j); auto. exfalso. destruct B as [B|B]; [lia|].
+      assert (nth (S j) (x0 :: xs) 0 <= x) by (apply weak_nth_mono; auto; lia). lra. }
+    assert (E : nth j (x0 :: xs) 0 = x).
+    { assert (x <= nth j (x0 :: xs) 0) by (apply weak_nth_mono; auto; lia). lra. }
+    exists j. split; auto. split; [simpl; lia|]. split; auto. split.
+    - destruct B as [B|B]; [left; simpl; lia|right; exact B].
+    - unfold C02_Model.interp. rnum.
+      replace (Rltb x x0) with false by (symmetry; apply Rltb_false; auto).
+      replace (Rltb (last (x0 :: xs) x0) x) with false by (symmetry; apply Rltb_false; auto).
+      rewrite C. replace (Reqb (nth j (x0 :: xs) 0) x) with true by (symmetry; apply Reqb_true; auto). reflexivity.
+  Qed.
+
+  (* strictly between two neighbouring stored times: the linear interpolation of the neighbouring values *)
+  Theorem resample_between_weak : forall xs ys i x,
+    length xs = length ys -> weakly_increasing xs -> (S i < length xs)%nat ->
+    nth i xs 0 < x < nth (S i) xs 0 ->
+    interp xs ys x =
+      (nth (S i) ys 0 - nth i ys 0) / (nth (S i) xs 0 - nth i xs 0) * (x - nth i xs 0) + nth i ys 0.
+  Proof.
+    intros xs ys i x Hl Hw Hi Hx. destruct xs as [|x0 xs]; simpl in Hi; try lia.
+    destruct ys as [|y0 ys]; simpl in Hl; try lia. simpl in Hw.
+    assert (H0 : x0 <= x).
+    { assert (x0 <= nth i (x0 :: xs) 0) by (apply weak_head_le_nth; auto; lia). lra. }
+    assert (H1 : x <= last (x0 :: xs) x0).
+    { assert (nth (S i) (x0 :: xs) 0 <= last (x0 :: xs) x0) by (apply weak_nth_le_last; auto; lia). lra. }
+    assert (Hl' : length xs = length ys) by (injection Hl; auto).
+    destruct (interp_go_weak xs ys x0 y0 x Hl' Hw H0 H1) as (j & Hj & A & B & C).
+    assert (j = i).
+    { destruct (lt_eq_lt_dec j i) as [[Hlt|Heq]|Hgt]; auto; exfalso.
+      - destruct B as [B|B]; [lia|].
+        assert (nth (S j) (x0 :: xs) 0 <= nth i (x0 :: xs) 0) by (apply weak_nth_mono; auto; lia). lra.
+      - assert (nth (S i) (x0 :: xs) 0 <= nth j (x0 :: xs) 0) by (apply weak_nth_mono; auto; lia). lra. }
+    subst j. unfold C02_Model.interp. rnum.
+    replace (Rltb x x0) with false by (symmetry; apply Rltb_false; auto).
+    replace (Rltb (last (x0 :: xs) x0) x) with false by (symmetry; apply Rltb_false; auto).
+    rewrite C. replace (Reqb (nth i (x0 :: xs) 0) x) with false by (symmetry; apply Reqb_false; lra). reflexivity.
+  Qed.
+End InterpWeak.
+
+(* a list whose neighbours are ordered under a key is weakly increasing under that key *)
+Lemma weakly_increasing_map : forall (A : Type) (f : A -> R) (d : A) (l : list A),
+  (forall i, (S i < length l)%nat -> f (nth i l d) <= f (nth (S i) l d)) -> weakly_increasing (map f l).
+Proof.
+  intros A f d l. destruct l as [|a l]; simpl; auto. revert a.
+  induction l as [|b l IH]; intros a H; simpl; auto. split.
+  - apply (H 0%nat). simpl; lia.
+  - apply IH. intros i Hi. apply (H (S i)). simpl in *; lia.
+Qed.
+
+Example resample_weak_nonvacuous :
+  weakly_increasing [0; 1; 1; 3] /\
+  @C02_Model.interp RNum 7 [0; 1; 1; 3] [10; 20; 25; 65] 1 = 25 /\
+  @C02_Model.interp RNum 7 [0; 1; 1; 3] [10; 20; 25; 65] 2 = 45.
+Proof.
+  split; [simpl; lra|]. split.
+  - destruct (resample_at_stored_time_weak 7 [0; 1; 1; 3] [10; 20; 25; 65] 1%nat) as (j & A & B & C & D & E);
+      simpl; auto; try lra; try lia.
+    simpl in *. rewrite E. destruct j as [|[|[|[|j]]]]; simpl in *; try lia; try lra.
+    destruct D as [D|D]; [lia|lra].
+  - rewrite (resample_between_weak 7 [0; 1; 1; 3] [10; 20; 25; 65] 2%nat 2); simpl; auto; try lra; try lia.
+Qed.
